@@ -16,6 +16,7 @@ DECIDES = ('the control points looked up at a parameter are span - degree + i, i
 NOT_DECIDED = 'the numerical values of ray parameters, convex hull output, voxel occupancy against sampled points, behaviour exactly on boundaries: numerical/geometric.'
 TECHNIQUE = 'polynomial identities, comparison-operator lattice, branch equivalence, reaching definitions, tolerance-forwarding rule'
 DECIDES += (' [ORDER TYPES, exact] WN2: wn_poly returns bool(sum over edges of [V_i.y <= P.y < V_i+1.y and P left] - [V_i+1.y <= P.y < V_i.y and P right]) for all 1215 (vertex-height order type, query height, side assignment) cases of a closed three-edge polygon; VX3 / AG52: voxelisation per element and serial = parallel (AL7 only corroborates).')
+DECIDES += (' KD5 / GV2: the 2-D view find_ctrlpts reads is the flat array at v + size_v * u; KD4: the voxel grid is laid over the bounding box of the unweighted control points.')
 
 
 def site(fi, node=None):
